@@ -973,3 +973,13 @@ def reach_alternatives(fn, bb):
             continue
         alts.append(conds)
     return alts
+
+
+def pol_is_variant(pol, idx, nvariants=2):
+    """Does a discriminant atom select variant `idx` of an enum with `nvariants` variants?"""
+    if pol == ("eq", idx):
+        return True
+    if isinstance(pol, tuple) and pol and pol[0] == "ne":
+        rest = set(range(nvariants)) - set(pol[1])
+        return rest == {idx}
+    return False
